@@ -34,7 +34,7 @@ var nlines int
 var counts = map[string]int{}
 
 func emit(e J) {
-	for _, k := range []string{"before", "after", "val", "dflt", "pbefore", "pafter", "acts"} {
+	for _, k := range []string{"before", "after", "val", "dflt", "pbefore", "pafter", "acts", "got"} {
 		if e[k] == nil {
 			e[k] = []int{}
 		}
@@ -60,6 +60,9 @@ func emit(e J) {
 	}
 	if e["tagok"] == nil {
 		e["tagok"] = true
+	}
+	if e["isnull"] == nil {
+		e["isnull"] = false
 	}
 	out.Encode(e)
 	nlines++
@@ -99,6 +102,7 @@ type fld struct {
 	acts    []act  // discriminants of the enclosing groups that are union members, outermost first
 	actAt   []int  // for each act: index in path of the group it activates
 	isGroup bool   // a group that is a union member (its setter only writes the discriminant)
+	pdflt   []byte // default of a Text / Data field
 }
 
 func (f fld) name() string { return strings.Join(f.path, ".") }
@@ -200,6 +204,13 @@ func enumerate(id uint64, path []string, acts []act, actAt []int) []fld {
 			if !d.ptr {
 				dv, _ := f.Slot().DefaultValue()
 				d.dflt = defaultBytes(d.kind, dv)
+			} else if dv, _ := f.Slot().DefaultValue(); dv.IsValid() {
+				switch {
+				case d.kind == schema.Type_Which_text && dv.Which() == schema.Value_Which_text:
+					d.pdflt, _ = dv.TextBytes()
+				case d.kind == schema.Type_Which_data && dv.Which() == schema.Value_Which_data:
+					d.pdflt, _ = dv.Data()
+				}
 			}
 			if d.bits == 0 && !d.ptr && !d.hasdisc {
 				continue // a Void that is not a union member has no accessors with an effect
@@ -451,6 +462,7 @@ func doGen() {
 			}
 			if f.ptr {
 				genPtr(t, f)
+				genPtrValues(t, f)
 				continue
 			}
 			for _, bg := range []byte{0x00, 0xff} {
@@ -688,6 +700,126 @@ func genPtr(t typ, f fld) {
 	}
 }
 
+// bytesOfResult renders what a Text / Data getter (or Go mirror field) holds
+func bytesOfValue(v reflect.Value) []byte {
+	if v.Kind() == reflect.String {
+		return []byte(v.String())
+	}
+	return append([]byte{}, v.Bytes()...)
+}
+
+// Text / Data values with defaults: a null slot reads as the default, a stored value (also the empty one) as itself
+func genPtrValues(t typ, f fld) {
+	if f.kind != schema.Type_Which_text && f.kind != schema.Type_Which_data {
+		return
+	}
+	last := f.path[len(f.path)-1]
+	for ci, c := range [][]byte{nil, {}, []byte("x\"y")} {
+		ci, c := ci, c
+		guarded("gen", t, f, func() {
+			_, seg, _ := capnp.NewMessage(capnp.SingleSegment(nil))
+			s, rv := t.mk(seg)
+			cur, ok := descend(t, f, s, rv, false)
+			if !ok {
+				return
+			}
+			if f.hasdisc {
+				s.SetUint16(capnp.DataOffset(2*f.doff), uint16(f.dval))
+			}
+			setter, getter := cur.MethodByName("Set"+title(last)), cur.MethodByName(title(last))
+			if !setter.IsValid() || !getter.IsValid() {
+				return
+			}
+			if ci > 0 {
+				var arg reflect.Value
+				if setter.Type().In(0).Kind() == reflect.String {
+					arg = reflect.ValueOf(string(c))
+				} else {
+					arg = reflect.ValueOf(c)
+				}
+				if r := setter.Call([]reflect.Value{arg}); len(r) > 0 && !r[0].IsNil() {
+					failure("gen", t, f, "error", r[0].Interface())
+					return
+				}
+			}
+			got := getter.Call(nil)[0]
+			e := f.base("gen", t)
+			e["k"], e["isnull"], e["dflt"], e["val"], e["got"] = "pval", ci == 0, ints(f.pdflt), ints(c), ints(bytesOfValue(got))
+			emit(e)
+		})
+	}
+}
+
+// the same through pogs: Insert then the generated getter; the generated setter (or nothing) then Extract
+func pogsPtrValues(t typ, gt reflect.Type, f fld, who func(string) string) {
+	if f.kind != schema.Type_Which_text && f.kind != schema.Type_Which_data {
+		return
+	}
+	if !goField(reflect.New(gt).Elem(), f.path).IsValid() {
+		return
+	}
+	last := f.path[len(f.path)-1]
+	for ci, c := range [][]byte{nil, {}, []byte("x\"y")} {
+		ci, c := ci, c
+		// Insert (a nil / empty Go value is the empty string, never "absent")
+		guarded(who("pogs-insert"), t, f, func() {
+			_, seg, _ := capnp.NewMessage(capnp.SingleSegment(nil))
+			s, rv := t.mk(seg)
+			gv := reflect.New(gt)
+			setWhichOnPath(gv.Elem(), f)
+			fv := goField(gv.Elem(), f.path)
+			if fv.Kind() == reflect.String {
+				fv.SetString(string(c))
+			} else if c != nil {
+				fv.SetBytes(c)
+			}
+			if err := pogs.Insert(t.id, s, gv.Interface()); err != nil {
+				failure(who("pogs-insert"), t, f, "error", err)
+				return
+			}
+			cur, ok := descend(t, f, s, rv, false)
+			if !ok {
+				return
+			}
+			// descend re-selects the groups on the path; pogs must already have selected them
+			got := cur.MethodByName(title(last)).Call(nil)[0]
+			e := f.base(who("pogs-insert"), t)
+			e["k"], e["isnull"], e["dflt"], e["val"], e["got"] = "pval", false, ints(f.pdflt), ints(c), ints(bytesOfValue(got))
+			emit(e)
+		})
+		// Extract
+		guarded(who("pogs-extract"), t, f, func() {
+			_, seg, _ := capnp.NewMessage(capnp.SingleSegment(nil))
+			s, rv := t.mk(seg)
+			cur, ok := descend(t, f, s, rv, false)
+			if !ok {
+				return
+			}
+			if f.hasdisc {
+				s.SetUint16(capnp.DataOffset(2*f.doff), uint16(f.dval))
+			}
+			if ci > 0 {
+				setter := cur.MethodByName("Set" + title(last))
+				var arg reflect.Value
+				if setter.Type().In(0).Kind() == reflect.String {
+					arg = reflect.ValueOf(string(c))
+				} else {
+					arg = reflect.ValueOf(c)
+				}
+				setter.Call([]reflect.Value{arg})
+			}
+			gv := reflect.New(gt)
+			if err := pogs.Extract(gv.Interface(), t.id, s); err != nil {
+				failure(who("pogs-extract"), t, f, "error", err)
+				return
+			}
+			e := f.base(who("pogs-extract"), t)
+			e["k"], e["isnull"], e["dflt"], e["val"], e["got"] = "pval", ci == 0, ints(f.pdflt), ints(c), ints(bytesOfValue(goField(gv.Elem(), f.path)))
+			emit(e)
+		})
+	}
+}
+
 // ---------------------------------------------------------------- pogs (C19)
 
 const maxDepth = 2
@@ -750,9 +882,20 @@ func goTypeOf(t schema.Type, depth int) reflect.Type {
 
 var goStructCache = map[string]reflect.Type{}
 
+// variant of the Go mirror types: "plain" (default naming), "embed" (the fields of a top-level struct sit in
+// a struct embedded three levels deep), "rename" (Go names differ from the schema names, mapped by capnp tags)
+var variant = "plain"
+
+func gname(schemaName string) string {
+	if variant == "rename" {
+		return "R" + title(schemaName)
+	}
+	return title(schemaName)
+}
+
 // goStruct builds the Go mirror of a struct (or group) node: Which uint16 for unions, groups as nested structs
 func goStruct(id uint64, depth int) reflect.Type {
-	key := fmt.Sprint(id, "/", depth)
+	key := fmt.Sprint(id, "/", depth, "/", variant)
 	if t, ok := goStructCache[key]; ok {
 		return t
 	}
@@ -784,11 +927,32 @@ func goStruct(id uint64, depth int) reflect.Type {
 		if ft == nil {
 			continue
 		}
-		sf = append(sf, reflect.StructField{Name: title(name), Type: ft})
+		fld := reflect.StructField{Name: gname(name), Type: ft}
+		if variant == "rename" {
+			fld.Tag = reflect.StructTag(fmt.Sprintf(`capnp:"%s"`, name))
+		}
+		sf = append(sf, fld)
 	}
 	if len(sf) == 0 {
 		goStructCache[key] = nil
 		return nil
+	}
+	if variant == "embed" && depth == 0 && !sn.IsGroup() {
+		// Which stays on top; everything else moves into E1.E2.E3 (anonymous at every level)
+		var top, inner []reflect.StructField
+		for _, f := range sf {
+			if f.Name == "Which" {
+				top = append(top, f)
+			} else {
+				inner = append(inner, f)
+			}
+		}
+		if len(inner) >= 2 {
+			e3 := reflect.StructOf(inner)
+			e2 := reflect.StructOf([]reflect.StructField{{Name: "E3", Type: e3, Anonymous: true}})
+			e1 := reflect.StructOf([]reflect.StructField{{Name: "E2", Type: e2, Anonymous: true}})
+			sf = append(top, reflect.StructField{Name: "E1", Type: e1, Anonymous: true})
+		}
 	}
 	t := reflect.StructOf(sf)
 	goStructCache[key] = t
@@ -805,7 +969,7 @@ func isListOfStructLike(t schema.Type) bool {
 // goField walks a Go value along a schema field path
 func goField(v reflect.Value, path []string) reflect.Value {
 	for _, p := range path {
-		v = v.FieldByName(title(p))
+		v = v.FieldByName(gname(p))
 		if !v.IsValid() {
 			return v
 		}
@@ -867,6 +1031,19 @@ func setWhichOnPath(v reflect.Value, f fld) {
 }
 
 func doPogs() {
+	for _, v := range []string{"plain", "embed", "rename"} {
+		variant = v
+		doPogsVariant()
+	}
+}
+
+func doPogsVariant() {
+	who := func(w string) string {
+		if variant == "plain" {
+			return w
+		}
+		return w + "/" + variant
+	}
 	for _, t := range types {
 		gt := goStruct(t.id, 0)
 		if gt == nil {
@@ -876,6 +1053,9 @@ func doPogs() {
 		us := unions(t.id)
 		for _, f := range fs {
 			f := f
+			if f.ptr {
+				pogsPtrValues(t, gt, f, who)
+			}
 			if f.ptr || f.isGroup || f.bits == 0 {
 				continue
 			}
@@ -885,7 +1065,7 @@ func doPogs() {
 			for _, v := range testValues(f.bits) {
 				// ---- Insert: value v in field f, every other active primitive field at its default
 				// (stored as zero bits), garbage in the inactive members of the unions on f's path
-				guarded("pogs-insert", t, f, func() {
+				guarded(who("pogs-insert"), t, f, func() {
 					_, seg, _ := capnp.NewMessage(capnp.SingleSegment(nil))
 					s, _ := t.mk(seg)
 					before := dataOf(s)
@@ -909,10 +1089,10 @@ func doPogs() {
 					arg := goValue(fv.Type(), v)
 					fv.Set(arg)
 					if err := pogs.Insert(t.id, s, gv.Interface()); err != nil {
-						failure("pogs-insert", t, f, "error", err)
+						failure(who("pogs-insert"), t, f, "error", err)
 						return
 					}
-					e := f.base("pogs-insert", t)
+					e := f.base(who("pogs-insert"), t)
 					a := []int{}
 					for _, x := range f.acts {
 						a = append(a, x.doff, x.dval)
@@ -923,7 +1103,7 @@ func doPogs() {
 			}
 			// ---- Extract from raw bytes built by other means
 			for _, bg := range []byte{0x00, 0xff} {
-				guarded("pogs-extract", t, f, func() {
+				guarded(who("pogs-extract"), t, f, func() {
 					_, seg, _ := capnp.NewMessage(capnp.SingleSegment(nil))
 					s, _ := t.mk(seg)
 					fill(s, bg)
@@ -943,15 +1123,15 @@ func doPogs() {
 					}
 					gv := reflect.New(gt)
 					if err := pogs.Extract(gv.Interface(), t.id, s); err != nil {
-						failure("pogs-extract", t, f, "error", err)
+						failure(who("pogs-extract"), t, f, "error", err)
 						return
 					}
-					g := f.base("pogs-extract", t)
+					g := f.base(who("pogs-extract"), t)
 					g["k"], g["before"], g["val"] = "get", ints(dataOf(s)), ints(rawOf(goField(gv.Elem(), f.path), f.bits))
 					emit(g)
 					if f.hasdisc {
 						w := goField(gv.Elem(), f.path[:len(f.path)-1]).FieldByName("Which")
-						emit(J{"k": "which", "who": "pogs-extract", "type": t.name, "field": f.name(), "doff": f.doff, "dval": int(w.Uint()), "before": ints(dataOf(s))})
+						emit(J{"k": "which", "who": who("pogs-extract"), "type": t.name, "field": f.name(), "doff": f.doff, "dval": int(w.Uint()), "before": ints(dataOf(s))})
 					}
 					// members of the selected unions that are not active must not have been read
 					untouched := true
@@ -964,7 +1144,7 @@ func doPogs() {
 							untouched, what = false, o.name()
 						}
 					}
-					x := f.base("pogs-extract", t)
+					x := f.base(who("pogs-extract"), t)
 					x["k"], x["ok"], x["what"] = "inactive-read", untouched, what
 					emit(x)
 				})
@@ -1021,7 +1201,7 @@ func clearInactive(id uint64, v reflect.Value) {
 	for i := 0; i < fields.Len(); i++ {
 		f := fields.At(i)
 		name, _ := f.Name()
-		gf := v.FieldByName(title(name))
+		gf := v.FieldByName(gname(name))
 		if !gf.IsValid() {
 			continue
 		}
@@ -1105,7 +1285,7 @@ func pogsRoundTrip(t typ, gt reflect.Type, fs []fld) {
 				if len(f.path) != 1 || f.isGroup || (f.hasdisc && f.dval != w) {
 					continue
 				}
-				gf := gv.Elem().FieldByName(title(f.path[0]))
+				gf := gv.Elem().FieldByName(gname(f.path[0]))
 				if !gf.IsValid() {
 					continue
 				}
@@ -1134,7 +1314,7 @@ func pogsRoundTrip(t typ, gt reflect.Type, fs []fld) {
 				}
 			}
 		}()
-		emit(J{"k": "roundtrip", "who": "pogs", "type": t.name, "field": fmt.Sprint("which=", w), "ok": ok, "what": what})
+		emit(J{"k": "roundtrip", "who": "pogs/" + variant, "type": t.name, "field": fmt.Sprint("which=", w), "ok": ok, "what": what})
 	}
 }
 
